@@ -742,6 +742,10 @@ pub fn rich_world(fl: Flavour, j: usize) -> String {
             s.push_str(&format!("    {uses}\n"));
         }
         s.push_str("    resource res {\n      constructor(a: u32);\n      get: func() -> u32;\n      make: static func(a: string) -> res;\n    }\n");
+        // several resources in one interface: the order of their export traits must not depend on hashing
+        for extra in ["res-b", "res-c", "res-d", "res-e"] {
+            s.push_str(&format!("    resource {extra} {{\n      constructor();\n      poke: func();\n    }}\n"));
+        }
         for d in &r.decls {
             s.push_str(&format!("    {d}\n"));
         }
